@@ -390,12 +390,10 @@ class FileSystemChain(FileSystem[File[FileSystem[Any]]]):
         """
         for sys, prefix in self.systems:
             full_folder = os.path.join(prefix, folder).replace('\\', '/')
+            # The child matched the prefix ignoring case and slash direction, so relpath() cannot strip it.
+            depth = len([part for part in prefix.replace('\\', '/').split('/') if part not in ('', '.')])
             for file in sys.walk_folder(full_folder):
-                yield File(
-                    self,
-                    os.path.relpath(file.path, prefix).replace('\\', '/'),
-                    file,
-                )
+                yield File(self, '/'.join(file.path.replace('\\', '/').split('/')[depth:]), file)
 
     def _get_cache_key(self, file: File[Self]) -> int:
         """Return the last modified time of this file.
